@@ -131,6 +131,13 @@ def _impl(tier, seed, search):
             if ok and qs is not None:
                 w2 = qs if np.dot(qs, qs2) >= 0 else -qs
                 L.close('UQ.interp=slerp', qs2, w2, TOL, 1.0, qi)
+        # the destination on the opposite hemisphere (negative inner product) without shortest: the long arc, at constant rate, exactly as slerp does
+        for shortest in (False, True):
+            qn = dict(q0=q0, q1=-q1, s=s, shortest=shortest, rel_angle=th)
+            ok, r = L.noraise('UQ.interp(opposite)', lambda: (UnitQuaternion(q0).interp(s, UnitQuaternion(-q1), shortest=shortest).vec, b.slerp(q0, -q1, s, shortest=shortest)), qn, 'UnitQuaternion.interp with a destination on the opposite hemisphere')
+            if ok and 1e-3 < th < math.pi - 1e-3:
+                w2 = r[1] if np.dot(r[0], r[1]) >= 0 else -r[1]
+                L.close('UQ.interp=slerp(opposite)', r[0], w2, TOL, 1.0, qn, what='UnitQuaternion.interp differs from slerp when the destination is on the opposite hemisphere', sig='UQ.interp=slerp')
         # shortest: q1 replaced by -q1 (same rotation, long arc when not shortest)
         qi = dict(q0=q0, q1=-q1, s=s, rel_angle=th)
         ok, qs = L.noraise('slerp-shortest', lambda: b.slerp(q0, -q1, s, shortest=True), qi, 'slerp(shortest=True)')
@@ -153,6 +160,22 @@ def _impl(tier, seed, search):
             if ok:
                 L.check('SE3.interp-vector:len', len(r) == 3, inp, 'vector of s does not yield the corresponding sequence')
                 if len(r) == 3 and r[1].A is not None: either_arc('SE3.interp-vector', r[1].A[:3, :3], R0, ax, th, 0.3, inp)
+        # a vector of s yields, element by element, the scalar results — whatever its end points and order (SO3 and SE3, with and without start)
+        if i % 4 == 1:
+            for sv2 in ([0.0, 0.25, 0.5], [0.2, 0.7], [1.0, 0.4, 0.0], np.linspace(0, 0.5, 5)):
+                for cls3, M1_, M0_ in ((SE3, T1, T0), (SO3, R1, R0)):
+                    for with_start in (True, False):
+                        st_ = dict(start=cls3(M0_, check=False)) if with_start else {}
+                        inpv = dict(cls=cls3.__name__, s=list(np.asarray(sv2, float)), start=with_start)
+                        ok, r = L.noraise(f'{cls3.__name__}.interp(vector)', lambda: ([np.asarray(x_, float) for x_ in cls3(M1_, check=False).interp(sv2, **st_).data],
+                                                                                  [np.asarray(cls3(M1_, check=False).interp(float(s_), **st_).A, float) for s_ in sv2]), inpv, f'{cls3.__name__}.interp(vector s)',
+                                          sig=f'{cls3.__name__}.interp(vector):raises')
+                        if ok:
+                            L.check(f'{cls3.__name__}.interp(vector):len', len(r[0]) == len(sv2), inpv, 'vector s does not give one pose per s', sig=f'{cls3.__name__}.interp(vector)')
+                            if len(r[0]) == len(sv2):
+                                for k_ in range(len(sv2)):
+                                    L.close(f'{cls3.__name__}.interp(vector)', r[0][k_], r[1][k_], TOL, tsc, dict(inpv, k=k_), what='interp with a vector of s differs from the scalar calls',
+                                            sig=f'{cls3.__name__}.interp(vector)')
         # ---- 2-D: angle and translation linear in s -----------------------------------------------------
         a0 = float(g.uniform(-math.pi + 1e-3, math.pi - 1e-3)); da = float(g.choice([-1, 1])) * min(th, math.pi - 1e-3)
         a1 = a0 + da
